@@ -3,7 +3,7 @@
    `space`/`digit` = isspace/isdigit of the C locale; head_nondigit l = l is empty or starts with a non-digit;
    after l = the state a reader leaves when it stopped in front of l (eof when l is empty, good otherwise). *)
 From Coq Require Import ZArith List.
-From C19 Require Import Model ProofsBase ProofsInt ProofsRat ProofsElt ProofsHex ProofsPoly ProofsRefute ProofsDest ProofsPair.
+From C19 Require Import Model ProofsBase ProofsInt ProofsRat ProofsElt ProofsHex ProofsPoly ProofsRefute ProofsDest ProofsPair ProofsBuf.
 Local Open Scope Z_scope.
 
 (* Integer: for every z, after any white space, followed by any text not starting with a digit:
@@ -94,3 +94,9 @@ Theorem C19_poly_write_read_never : Poly_write_read_never_stmt.             Proo
 Print Assumptions C19_poly_write_read_never.
 Theorem C19_poly_write_read_never_any_dest : Poly_write_read_never_any_dest_stmt. Proof. exact poly_write_read_never_any_dest. Qed.
 Print Assumptions C19_poly_write_read_never_any_dest.
+(* display_dec's digit buffer: any buffer of at least 2^K/3 + 1 characters (the source declares (size_t(1) << K) / 3 + 2, re-read and
+   re-evaluated by the check on every run) never cuts a 2^K-bit number, for every K; 3*2^K/10 + 1 (seeded change C19-m1) is one short for K = 8 *)
+Theorem C19_ruint_dec_buffer : Ruint_dec_buffer_stmt.                       Proof. exact ruint_dec_buffer. Qed.
+Print Assumptions C19_ruint_dec_buffer.
+Theorem C19_ruint_dec_buffer_tight : Ruint_dec_buffer_tight_stmt.           Proof. exact ruint_dec_buffer_tight. Qed.
+Print Assumptions C19_ruint_dec_buffer_tight.
